@@ -423,18 +423,58 @@ func runTopo(c *Ctx) {
 		c.R.Undecided("TOPO", "results", name, p.Pos(tp.Pos()), "unexpected result shape")
 		return
 	}
+	// the routine and its private helpers (relaxation step, accounting struct methods), read with one binding of the
+	// helpers' parameters to the caller's values
+	regionEnv := map[*ssa.Parameter]ssa.Value{}
+	for _, g := range p.Region(tp) {
+		if g == tp || g.Parent() != nil {
+			continue
+		}
+		c.R.Func(core.FuncName(g))
+		if sites := p.Callers(g); len(sites) == 1 {
+			for i, prm := range g.Params {
+				if i < len(sites[0].Common().Args) {
+					regionEnv[prm] = sites[0].Common().Args[i]
+				}
+			}
+		}
+	}
+	savedEnv := core.PathEnv
+	core.PathEnv = regionEnv
+	defer func() { core.PathEnv = savedEnv }()
+	up := func(v ssa.Value) ssa.Value {
+		for i := 0; i < 6; i++ {
+			prm, ok := v.(*ssa.Parameter)
+			if !ok {
+				break
+			}
+			a, ok := regionEnv[prm]
+			if !ok {
+				break
+			}
+			v = a
+		}
+		return v
+	}
 	dist, edge := rets[0].Results[0], rets[0].Results[1]
-	_, freshD := dist.(*ssa.MakeMap)
-	_, freshE := edge.(*ssa.MakeMap)
-	c.R.Add("TOPO", "fresh-result-maps", name, p.Pos(tp.Pos()), freshD && freshE, "distances and predecessors are collected in fresh maps (absence = infinity)", fmt.Sprintf("ok=%v", freshD && freshE))
+	distPath, edgePath := core.Path(dist), core.Path(edge)
+	isDist := func(v ssa.Value) bool { return v == dist || core.Path(v) == distPath }
+	isEdge := func(v ssa.Value) bool { return v == edge || core.Path(v) == edgePath }
+	fresh := func(v ssa.Value) bool {
+		if _, ok := v.(*ssa.MakeMap); ok {
+			return true
+		}
+		return p.FreshIn(v)
+	}
+	c.R.Add("TOPO", "fresh-result-maps", name, p.Pos(tp.Pos()), fresh(dist) && fresh(edge) && distPath != edgePath, "distances and predecessors are collected in fresh maps (absence = infinity)", fmt.Sprintf("ok=%v", fresh(dist) && fresh(edge)))
 	// updates
 	var du, eu *ssa.MapUpdate
-	core.Instrs(tp, func(in ssa.Instruction) {
+	p.RegionInstrs(tp, func(in ssa.Instruction) {
 		if mu, ok := in.(*ssa.MapUpdate); ok {
-			if mu.Map == dist {
+			if isDist(mu.Map) {
 				du = mu
 			}
-			if mu.Map == edge {
+			if isEdge(mu.Map) {
 				eu = mu
 			}
 		}
@@ -448,29 +488,29 @@ func runTopo(c *Ctx) {
 	// value = dist[hash(u)] + weight, weight/neighbour from out-adjacency of u, u ranging over L in order
 	sumOK, uOK, orderOK := false, false, false
 	var u ssa.Value
-	if b, ok := du.Value.(*ssa.BinOp); ok && b.Op == token.ADD {
+	if b, ok := up(du.Value).(*ssa.BinOp); ok && b.Op == token.ADD {
 		for _, pair := range [][2]ssa.Value{{b.X, b.Y}, {b.Y, b.X}} {
 			lk, ok := pair[0].(*ssa.Lookup)
-			if !ok || lk.X != dist {
+			if !ok || !isDist(lk.X) {
 				continue
 			}
-			n, ok := extractNext(pair[1])
-			if !ok || !sameNext(du.Key, n, 1) {
+			n, ok := extractNext(up(pair[1]))
+			if !ok || !sameNext(up(du.Key), n, 1) {
 				continue
 			}
 			if rg, ok := n.Iter.(*ssa.Range); ok {
 				src := c.classifyMap(gf, rg.X)
-				if src.level == "inner" && src.field == "out" && src.keyV == lk.Index {
+				if src.level == "inner" && src.field == "out" && src.keyV != nil && core.Path(src.keyV) == core.Path(lk.Index) {
 					sumOK = true
 					if hc, ok := p.IsHashcodeCall(lk.Index); ok {
-						u = core.Strip(hc.Common().Args[0])
+						u = up(core.Strip(hc.Common().Args[0]))
 					}
 				}
 			}
 		}
 	}
 	if u != nil {
-		uOK = core.Strip(eu.Value) == u
+		uOK = up(core.Strip(eu.Value)) == u || core.Path(eu.Value) == core.Path(u)
 		if ld, ok := u.(*ssa.UnOp); ok {
 			if ia, ok := ld.X.(*ssa.IndexAddr); ok && ia.X == ssa.Value(tp.Params[1]) {
 				if bb, ok := ia.Index.(*ssa.BinOp); ok && bb.Op == token.ADD {
@@ -486,23 +526,26 @@ func runTopo(c *Ctx) {
 	c.R.Add("TOPO", "processes-order-front-to-back", name, p.Pos(tp.Pos()), orderOK, "vertices are processed in the given topological order, front to back", fmt.Sprintf("ok=%v", orderOK))
 	// guard: absent or greater — every path to the update passes `not ok(dist[v])` or `dist[v] > candidate`
 	allowed := map[[2]*ssa.BasicBlock]bool{}
-	// absentOrBetter: the literal (with its polarity) states "no entry for key in dist" or "the entry is greater than cand"
-	absentOrBetter := func(l core.Lit, distV, keyV, candV ssa.Value) bool {
+	keyPath, candPath := core.Path(du.Key), core.Path(du.Value)
+	// absentOrBetter: the literal (with its polarity) states "no entry for key in dist" or "the entry is greater than
+	// cand"; values are compared by access path under the current parameter binding
+	absentOrBetter := func(l core.Lit) bool {
 		isOld := func(v ssa.Value) bool {
 			switch x := v.(type) {
 			case *ssa.Lookup:
-				return x.X == distV && x.Index == keyV
+				return isDist(x.X) && core.Path(x.Index) == keyPath
 			case *ssa.Extract:
 				if lk, ok := x.Tuple.(*ssa.Lookup); ok {
-					return lk.X == distV && lk.Index == keyV && x.Index == 0
+					return isDist(lk.X) && core.Path(lk.Index) == keyPath && x.Index == 0
 				}
 			}
 			return false
 		}
+		isCand := func(v ssa.Value) bool { return v == du.Value || core.Path(v) == candPath }
 		switch l.Kind {
 		case "ok":
 			lk, ok := l.Of.(*ssa.Lookup)
-			return ok && lk.X == distV && lk.Index == keyV && !l.Pol
+			return ok && isDist(lk.X) && core.Path(lk.Index) == keyPath && !l.Pol
 		case "cmp":
 			op := l.Op
 			if !l.Pol {
@@ -519,10 +562,10 @@ func runTopo(c *Ctx) {
 					return false
 				}
 			}
-			if isOld(l.X) && l.Y == candV && (op == token.GTR || op == token.GEQ) {
+			if isOld(l.X) && isCand(l.Y) && (op == token.GTR || op == token.GEQ) {
 				return true
 			}
-			if isOld(l.Y) && l.X == candV && (op == token.LSS || op == token.LEQ) {
+			if isOld(l.Y) && isCand(l.X) && (op == token.LSS || op == token.LEQ) {
 				return true
 			}
 		}
@@ -530,10 +573,11 @@ func runTopo(c *Ctx) {
 	}
 	holds := func(cond ssa.Value, pol bool) bool {
 		l := core.LitOf(cond, pol)
-		if absentOrBetter(l, dist, du.Key, du.Value) {
+		if absentOrBetter(l) {
 			return true
 		}
-		// a predicate helper over (dist, key, candidate)
+		// a predicate helper (`absentOrGreater(dist, key, cand)`, `acct.reached(key)`): read its body with its parameters
+		// bound to this call's arguments
 		if l.Kind == "call" {
 			cl, _ := l.Of.(*ssa.Call)
 			if cl == nil {
@@ -543,25 +587,22 @@ func runTopo(c *Ctx) {
 			if h == nil || !p.InTarget(h) || len(h.Blocks) == 0 || len(h.Params) != len(cl.Common().Args) {
 				return false
 			}
-			var pd, pk, pc ssa.Value
-			for i, a := range cl.Common().Args {
-				switch a {
-				case dist:
-					pd = h.Params[i]
-				case du.Key:
-					pk = h.Params[i]
-				case du.Value:
-					pc = h.Params[i]
-				}
+			env := map[*ssa.Parameter]ssa.Value{}
+			for k, v := range core.PathEnv {
+				env[k] = v
 			}
-			if pd == nil || pk == nil || pc == nil {
-				return false
+			for i, prm := range h.Params {
+				env[prm] = cl.Common().Args[i]
 			}
-			return core.HelperImplies(h, l.Pol, func(hl core.Lit) bool { return absentOrBetter(hl, pd, pk, pc) })
+			saved := core.PathEnv
+			core.PathEnv = env
+			ok := core.HelperImplies(h, l.Pol, absentOrBetter)
+			core.PathEnv = saved
+			return ok
 		}
 		return false
 	}
-	core.Instrs(tp, func(in ssa.Instruction) {
+	core.Instrs(du.Parent(), func(in ssa.Instruction) {
 		iff, ok := in.(*ssa.If)
 		if !ok || len(iff.Block().Succs) != 2 {
 			return
@@ -573,7 +614,7 @@ func runTopo(c *Ctx) {
 			allowed[[2]*ssa.BasicBlock{iff.Block(), iff.Block().Succs[1]}] = true
 		}
 	})
-	var start *ssa.BasicBlock
+	start := du.Parent().Blocks[0]
 	if ki, ok := du.Key.(ssa.Instruction); ok {
 		start = ki.Block()
 	}
